@@ -9,6 +9,19 @@ def D(rec):
     return F
 
 
+def STRESS(rec):
+    """facts of the gc_stress configuration (collection at every allocation), or None if it does not build"""
+    try:
+        F = facts.load("gc_stress")
+        rec.configs.add("gc_stress")
+        return F
+    except facts.ExtractError as e:
+        rec.rule("F10.cfg", "every feature configuration the project's CI builds type-checks")
+        rec.inst("F10.cfg", "cargo check --features laythe_vm/gc_stress", ok=False)
+        rec.finding("F10.cfg", "F10.cfg/gc_stress-build", "configuration gc_stress does not type-check: %s" % str(e)[-300:])
+        return None
+
+
 def c05(rec, tier):
     F = D(rec)
     f5_trace.run(rec, F)
@@ -17,6 +30,10 @@ def c05(rec, tier):
     f4_gc.gc_phase_order(rec, F)
     f4_gc.alloc_rooting(rec, F)
     f8_hazards.run(rec, F)
+    SF = STRESS(rec)
+    if SF is not None:
+        f4_gc.gc_phase_order(rec, SF)
+        f4_gc.alloc_rooting(rec, SF)
     if tier == "thorough":
         try:
             NB = facts.load("nan_boxing")
@@ -31,6 +48,12 @@ def c09(rec, tier):
     F = D(rec)
     f4_gc.intern_funnel(rec, F)
     f4_gc.gc_phase_order(rec, F)
+    # identity = content only while every holder of a string keeps it marked: containers trace keys too
+    f5_trace.run_generic_params(rec, F)
+    SF = STRESS(rec)
+    if SF is not None:
+        f4_gc.gc_phase_order(rec, SF)
+        f4_gc.intern_funnel(rec, SF)
 
 
 def c20(rec, tier):
@@ -42,6 +65,10 @@ def c20(rec, tier):
     f4_gc.gc_phase_order(rec, F)
     f7_roots.run(rec, F)
     f4_gc.intern_funnel(rec, F)
+    SF = STRESS(rec)
+    if SF is not None:
+        f4_gc.gc_phase_order(rec, SF)
+        f4_gc.sweep_siblings(rec, SF)
 
 
 def c01(rec, tier):
@@ -57,6 +84,7 @@ def c02(rec, tier):
     F = D(rec)
     S = SY(rec)
     f2_emit.run_twins(rec, S)
+    f2_emit.run_declare_define(rec, S)
     f4_obj.run_closures(rec, F)
     T = f1_isa.run_tables(rec, F)
     f1_isa.run_width(rec, F, T)
@@ -77,8 +105,11 @@ def c04(rec, tier):
     F = D(rec)
     S = SY(rec)
     f2_emit.run_handlers(rec, S, F)
+    f2_emit.run_scoped_state(rec, S)
+    f2_emit.run_declare_define(rec, S)
     f2_emit.run_depth_provenance(rec, F)
     f4_exc.run(rec, F)
+    f4_exc.run_native_env(rec, F, S)
     T = f1_isa.run_tables(rec, F)
     f1_isa.run_effect(rec, F, T, only=("PushHandler", "PopHandler", "CheckHandler", "FinishUnwind", "ContinueUnwind", "GetError", "Raise"))
 
@@ -106,6 +137,7 @@ def c06(rec, tier):
     S = SY(rec)
     f1_isa.run_all(rec, F)
     f2_emit.run_slots(rec, S)
+    f2_emit.run_declare_define(rec, S)
     f2_emit.run_depth_provenance(rec, F)
     f2_emit.run_constant_kinds(rec, S, F)
     f2_emit.run_provenance(rec, S)
@@ -199,6 +231,9 @@ def c18(rec, tier):
     f4_vm.run_c18(rec, F)
     T = f1_isa.run_tables(rec, F)
     f1_isa.run_width(rec, F, T)
+    f1c_ops.run_scanner_lines(rec, SY(rec))
+    # the error object, its message and its backtrace must survive the allocations that build them
+    f8_hazards.run(rec, F, only=r"op_finish_unwind|finish_unwind|error_backtrace|print_error|<impl laythe_vm::vm::Vm>::runtime_error|stack_unwind|pause_unwind|set_error")
 
 
 def c19(rec, tier):
@@ -207,7 +242,16 @@ def c19(rec, tier):
     f4_vm.diagnostics_gate(rec, F)
 
 
+def _with_debug_parity(pid, fn):
+    def run(rec, tier):
+        fn(rec, tier)
+        f10_parity.run_debug_parity(rec, D(rec), pid)
+    return run
+
+
 CHECKS = {"C01": c01, "C12": c12, "C02": c02, "C03": c03, "C04": c04, "C13": c13, "C05": c05, "C06": c06, "C10": c10, "C11": c11, "C14": c14, "C07": c07, "C08": c08, "C09": c09, "C15": c15, "C16": c16, "C17": c17, "C18": c18, "C19": c19, "C20": c20}
+
+CHECKS = {k: (_with_debug_parity(k, v) if k in f10_parity.DBG_SCOPE else v) for k, v in CHECKS.items()}
 
 META = {
     "C01": {
